@@ -59,14 +59,16 @@ def configs(tier):
     for entry in CONT_SIR + CONT_SIS + DISC:
         sir = 'SIR' in entry
         if entry in CONT_SIR:
-            gl = ['K2', 'K2+K1', 'P3', 'K3']
+            gl = ['K2', 'K2+K1', 'P3', 'K3', 'P3loop']      # P3loop: a self-loop never carries a transmission
         else:
-            gl = ['K2', 'P3']
+            gl = ['K2', 'P3'] + (['P3loop'] if entry in CONT_SIS else [])
         if tier == 'thorough':
             gl = gl + ['P4', 'S3'] + ([] if 'K3' in gl else ['K3'])
         for g in gl:
             for I0, R0 in graphs.automorphism_reduced_ics(g, with_recovered=sir):
                 if tier == 'quick' and len(R0) > 1:
+                    continue
+                if g == 'P3loop' and (len(I0) > 1 or R0):
                     continue
                 if tier == 'quick' and entry in ('fast_nonMarkov_SIS', 'fast_SIS') and len(I0) > 1 and g == 'P3':
                     continue
